@@ -28,5 +28,10 @@ for path in sorted(glob.glob('/verif/notes/known_findings_C*.json')):
             ok = False; print("known_findings.json lacks", f["property"], f["class"], "of", path)
         elif got["status"] == "known" and f["status"] == "fixed":
             ok = False; print("known_findings.json has", f["property"], f["class"], "as known, notes say fixed")
+import subprocess
+lock = json.load(open('/verif/anchors.lock.json'))
+head = subprocess.run("git -C /repo rev-parse HEAD", shell=True, stdout=subprocess.PIPE, text=True).stdout.strip()
+if lock["repo_commit"] != head:
+    ok = False; print("anchors.lock.json is for", lock["repo_commit"][:8], "but /repo HEAD is", head[:8], "- run tools/fingerprint.py --update once all checks are silent")
 print("valid" if ok else "INVALID")
 sys.exit(0 if ok else 1)
